@@ -75,10 +75,10 @@ class Duck:
 
 
 def sym_duck(sx, space, kind, name):
-    T = sx.choice(name + 'T', member_types(space, kind))
-    s = sx.int(name + 's', 0, T.num_states() - 1)
+    T = sx.choice(name + '_type', member_types(space, kind))
+    s = sx.int(name + '_status', 0, T.num_states() - 1)
     if uses_color(T):
-        c = sx.int(name + 'c', 0, len(Color) - 1)
+        c = sx.int(name + '_colour', 0, len(Color) - 1)
         sx.assume(sym_or(*[c == col.value for col in space.colors]))
     else:
         c = 0
